@@ -12,6 +12,8 @@ REF = os.path.join(os.path.dirname(os.path.dirname(os.path.dirname(os.path.abspa
 
 
 def _norm_ty(t):
+    # compiler-internal ids (DefId numbers, crate disambiguators, the module a type alias lives in) are not part of a type's shape
+    t = re.sub(r"DefId\(\d+:\d+ ~ [^)]*?(\w+|'\w+)\)", lambda m: 'DefId(' + m.group(1) + ')', t)
     return re.sub(r"'[a-z_]\w*(/#\d+)?", "'_", t)
 
 
@@ -47,6 +49,10 @@ FREF = os.path.join(os.path.dirname(REF), 'fn_sigs.json')
 TREF = os.path.join(os.path.dirname(REF), 'adt_shapes.json')
 
 
+def _self(t, own):
+    return re.sub(r'(?<![\w])' + re.escape(own) + r'(?![\w])', 'Self', t)
+
+
 def adt_shapes(data):
     """{adt path: shape} where shape = variants with field names and types, the type's own path written Self"""
     out = {}
@@ -54,43 +60,55 @@ def adt_shapes(data):
         p = a['path']
         if '::_::' in p or '{' in p:
             continue
-        out[p] = [[v['name'], [[f['name'], _norm_ty(f['ty']).replace(p, 'Self')] for f in v['fields']]] for v in a['variants']]
+        out[p] = [[v['name'], [[f['name'], _self(_norm_ty(f['ty']), p)] for f in v['fields']]] for v in a['variants']]
     return out
 
 
+def _subst_types(shape, m):
+    """rewrite type strings of a shape with the aliases found so far (nested references to renamed types then compare equal)"""
+    if not m:
+        return shape
+    def ren(t):
+        for a, r in sorted(m.items(), key=lambda x: -len(x[0])):
+            t = re.sub(r'(?<![\w])' + re.escape(a) + r'(?![\w])', r, t)
+        return t
+    return [[vn, [[fn_, ren(ft)] for fn_, ft in fields]] for vn, fields in shape]
+
+
 def align_types(ref, act):
-    """{actual path: reference path} for private types that were merely renamed (same module, same shape up to the variant name
-    of a struct, which repeats the type name)"""
-    def key(path, shape):
-        mod = path.rsplit('::', 1)[0]
-        if len(shape) == 1:
-            return json.dumps([mod, 'struct', shape[0][1]])
-        return json.dumps([mod, 'enum', shape])
-    missing = {p: sh for p, sh in ref.items() if p not in act}
-    fresh = {p: sh for p, sh in act.items() if p not in ref}
+    """{actual path: reference path} for private types that were renamed and/or moved; matched by shape in tiers of decreasing
+    strictness, iterated so that types mentioning other renamed types line up too"""
     m = {}
-    groups = {}
-    for p, sh in missing.items():
-        groups.setdefault(key(p, sh), [[], []])[0].append(p)
-    for p, sh in fresh.items():
-        groups.setdefault(key(p, sh), [[], []])[1].append(p)
-    for k, (rs, as_) in groups.items():
-        if len(rs) == 1 and len(as_) == 1:
-            m[as_[0]] = rs[0]
-    # moved to another module under the same name (shape compared without the module)
-    def key2(path, shape):
+
+    def keys(path, shape, own):
+        mod = path.rsplit('::', 1)[0]
         nm = path.rsplit('::', 1)[-1]
-        return json.dumps([nm, shape if len(shape) > 1 else shape[0][1]])
-    g2 = {}
-    for p, sh in missing.items():
-        if p not in m.values():
-            g2.setdefault(key2(p, sh), [[], []])[0].append(p)
-    for p, sh in fresh.items():
-        if p not in m:
-            g2.setdefault(key2(p, sh), [[], []])[1].append(p)
-    for k, (rs, as_) in g2.items():
-        if len(rs) == 1 and len(as_) == 1:
-            m[as_[0]] = rs[0]
+        sh = [[vn, [[f, _self(t, own)] for f, t in fs]] for vn, fs in shape]
+        struct = len(sh) == 1
+        named = sh[0][1] if struct else sh
+        types_only = sorted(t for vn, fs in sh for f, t in fs) if struct else [[t for f, t in fs] for vn, fs in sh]
+        return [
+            json.dumps(['t1', mod, struct, named]),                 # same module, same field names and types
+            json.dumps(['t2', nm, struct, named]),                  # same name anywhere, same fields
+            json.dumps(['t3', mod, struct, types_only]),            # same module, same field TYPES (names / order free)
+            json.dumps(['t4', struct, types_only]),                 # anywhere, same field types
+        ]
+    for rnd in range(4):
+        before = len(m)
+        for tier in range(4):
+            missing = {p: sh for p, sh in ref.items() if p not in act and p not in m.values()}
+            fresh = {p: sh for p, sh in act.items() if p not in ref and p not in m}
+            groups = {}
+            for p, sh in missing.items():
+                groups.setdefault(keys(p, sh, p)[tier], [[], []])[0].append(p)
+            for p, sh in fresh.items():
+                sh2 = _subst_types(sh, m)
+                groups.setdefault(keys(p, sh2, p)[tier], [[], []])[1].append(p)
+            for k, (rs, as_) in groups.items():
+                if len(rs) == 1 and len(as_) == 1 and (tier < 3 or len(json.loads(k)[2]) >= 2):
+                    m[as_[0]] = rs[0]
+        if len(m) == before:
+            break
     return m
 
 
@@ -104,6 +122,19 @@ def apply_type_aliases(data, role):
         return {}
     pats = [(re.compile(r'(?<![\w])' + re.escape(a) + r'(?![\w])'), r) for a, r in sorted(m.items(), key=lambda x: -len(x[0]))]
     names = {a.rsplit('::', 1)[1]: r.rsplit('::', 1)[1] for a, r in m.items()}
+
+    # enum variants renamed along with their type: positional alignment of the variant lists
+    act_sh = adt_shapes(data)
+    vmap = {}
+    for a, r in m.items():
+        va, vr = act_sh.get(a), ref.get(r)
+        if va and vr and len(va) == len(vr) and len(va) > 1:
+            for (na, _), (nr, _) in zip(va, vr):
+                if na != nr:
+                    vmap[(r, na)] = nr
+    vnames = {}
+    for (r, na), nr in vmap.items():
+        vnames.setdefault(na, set()).add(nr)
 
     def ren(sv):
         for pat, r in pats:
@@ -130,6 +161,32 @@ def apply_type_aliases(data, role):
                     walk(v)
     for k in ('fns', 'adts', 'impls', 'statics', 'consts', 'unsafe'):
         walk(data.get(k, []))
+    if vmap:
+        def vwalk(x):
+            if isinstance(x, dict):
+                ad = x.get('adt')
+                if isinstance(ad, str) and isinstance(x.get('variant'), str) and (ad, x['variant']) in vmap:
+                    x['variant'] = vmap[(ad, x['variant'])]
+                if isinstance(x.get('proj'), list):
+                    pr = x['proj']
+                    for i, e in enumerate(pr):
+                        if isinstance(e, dict) and 'downcast' in e:
+                            of = pr[i + 1].get('of') if i + 1 < len(pr) and isinstance(pr[i + 1], dict) else None
+                            if of is not None and (of, e['downcast']) in vmap:
+                                e['downcast'] = vmap[(of, e['downcast'])]
+                            elif of is None and e['downcast'] in vnames and len(vnames[e['downcast']]) == 1:
+                                e['downcast'] = next(iter(vnames[e['downcast']]))
+                if x.get('path') in {r for (r, _) in vmap} and isinstance(x.get('variants'), list):
+                    for v in x['variants']:
+                        if (x['path'], v.get('name')) in vmap:
+                            v['name'] = vmap[(x['path'], v['name'])]
+                for v in x.values():
+                    vwalk(v)
+            elif isinstance(x, list):
+                for v in x:
+                    vwalk(v)
+        for k in ('fns', 'adts'):
+            vwalk(data.get(k, []))
     return m
 
 
